@@ -160,6 +160,41 @@ CHECKS["C10"] = (
     "DESIGN.md 3 (C10)",
 )
 
+CHECKS["C01"] = (
+    "Coq proof about a kernel model regenerated from fast_likelihood.pyx by a translator (jitter folding, prior slots, per-sample state) + MathComp "
+    "matrix identities for all dimensions (Woodbury, Sylvester determinant); per-input exact bigQ certificates that the generated loops compute the "
+    "closed form; toleranced correspondence of the generated model with the binary rebuilt from the generated C",
+    "tools/pyx2v.py regenerates Gen/KernelPyx.v (get_ivar, make_AAinv, make_bBBinv, likelihood_worker, the three per-sample preludes, the mu/Lambda "
+    "slotting of __init__) from the .pyx on every run -- the only way a .pyx edit can be judged here, there is no Cython. Proved for all inputs about "
+    "that generated code: new_ivar = ivar/(1+s^2 ivar) on every epoch and 1/new_ivar = 1/ivar + s^2; every prior mean/variance is stored in its own "
+    "design-matrix column (K,v0,offsets,v1..), slots pairwise distinct, default-K variance left to the per-sample rule, P0 converted to days; the "
+    "marginal, posterior and test entry points hand the same state to the worker. Proved for all dimensions over any field (MathComp): the matrix the "
+    "worker forms as Binv is the inverse of B = C_s + M Lambda M^T; det B = det C_s det Lambda det(Lambda^-1 + M^T C_s^-1 M). NOT proved for all "
+    "inputs: that the generated loop nests compute exactly those matrix expressions -- certified per run and per input by Coq instead (exact rational "
+    "equality of chi^2, |det B|, B, B^-1, a, Ainv and certified-interval equality of ll with -1/2(chi^2 + ln((2 pi)^n |det B|))). The generated "
+    "model is also compared with the rebuilt binary (ll through TheJoker.marginal_ln_likelihood, a / Ainv through the public buffers).",
+    "Trusted: Coq kernel + vm_compute; Bignums bigQ; Coq-Interval via Base/RealEnc.v (ln, pi, certified doubles for (P/P0)^(-2/3)); translator "
+    "tools/pyx2v.py + tools/imp2v.py (fail-closed); tools/patch_kernel_c.py + gcc (the generated C cannot be regenerated); LAPACK as oracles with "
+    "exact Gauss-Jordan instances checked by X X^-1 = I; twobody's Kepler solver as a table oracle for the specified convention; astropy units; IEEE "
+    "rounding bridged by tolerance (1e-7).",
+    "DESIGN.md 3 (C01)",
+)
+
+CHECKS["C03"] = (
+    "Coq proof: generated posterior path prepares the same state as the marginal path (cap included); MathComp completing-the-square theorem for all "
+    "dimensions; list proofs of the row layout; per-input exact certificates for (a, A^-1); recorded multivariate_normal arguments compared by Coq",
+    "Proved for all inputs: (generated code) k_posterior_one and k_marginal_one call the worker on the same per-sample state -- same jittered inverse "
+    "variances, prior slots and capped K variance; (MathComp, any field, all n, k) (y-Mx)^T C_s^-1 (y-Mx) + (x-mu)^T Lambda^-1 (x-mu) = (x-a)^T A^-1 "
+    "(x-a) + (M mu-y)^T B^-1 (M mu-y) with A^-1 = Lambda^-1 + M^T C_s^-1 M and A^-1 a = Lambda^-1 mu + M^T C_s^-1 y, i.e. N(a, A) is the exact "
+    "conditional; (lists) output row n*n_linear_samples+j = sample n's nonlinear parameters ++ its j-th draw. Per run: Coq certifies on every "
+    "generated input that the generated loops produce exactly that (a, A^-1), that the (mean, cov) the implementation hands to "
+    "Generator.multivariate_normal (recorded through a Generator subclass passed as rng) are that a and the exact inverse of that A^-1 to 1e-4 "
+    "posterior sigma, and that the returned rows are bit-for-bit the model's layout of the recorded draws.",
+    "Trusted: as C01, plus numpy's multivariate_normal drawing from the N(mean, cov) it is handed (the distribution of the draws is not verified) "
+    "and JokerSamples.unpack's unit table observed through the returned columns.",
+    "DESIGN.md 3 (C03)",
+)
+
 NOT_YET = {}
 
 
